@@ -7,6 +7,12 @@ CHECKS = {
  "C15": dict(cat="exploration", design="§3 C15", technique="bounded exhaustive enumeration of operands and construction paths against a Z^3 reference model",
    text="Complete enumeration of all triples of 3-class vectors with amounts -2..2, all pairs x 9x9 construction paths, the same laws through reduce, and a boundary sweep over wide amounts and policy/name lengths; every instance is executed on the real CanonicalAssets and compared with an integer-vector reference. Exhaustive below the stated alphabet, silent about amounts outside it.",
    note="Reference model = BTreeMap with zeros dropped; containment judged on non-negative operands only; overflowing pairs excluded (the quantifier says 'without overflow')."),
+ "C03": dict(cat="exploration", design="§3 C03", technique="bounded exhaustive enumeration of (store, query, candidate-set order) against a specification predicate",
+   text="Every multiset store up to the bound x every query of the product alphabet is run through tx3_resolver::inputs::resolve (the narrowest public seam that reaches narrowing and selection); the iteration order of the candidate set handed to the selector is an enumerated environment choice; soundness and completeness are judged by a predicate written from the property text. Exhaustive below the bound; the 50-candidate window is probed with 49/50/51-UTxO stores.",
+   note="Amounts are non-negative and small; completeness only claimed for <= 50 specification candidates and for queries reachable from the language (single ref); the HashSet built inside SearchSpace::take is not observable."),
+ "C04": dict(cat="exploration", design="§3 C04", technique="bounded exhaustive enumeration of block tuples (visiting schedules) x stores x candidate-set orders",
+   text="Every ordered tuple of up to 3 (thorough: 4) overlapping block types x every multiset store of up to 4 UTxOs at one address x optional collateral x every name-to-source-position assignment, through inputs::resolve and then reduce + Compiler::compile; selections must be pairwise disjoint, each block sound with respect to what earlier blocks took, and the emitted input list equal to the union of the selections without duplicates.",
+   note="No global completeness (matching) claim; block types and stores limited to the stated alphabets."),
 }
 PENDING = {}
 
